@@ -271,7 +271,7 @@ fn callers(ctx: &mut Ctx) {
     };
     let units = ["tsp", "tbsp", "cup", "fl oz", "pint", "oz", "lb", "in", "ft", "ml", "l", "g", "kg", "cm", "F", "C", "min"];
     let mut r = crate::core::Rng::new(ctx.seed ^ 0xCA11);
-    let n = ctx.budget(40_000, 2_000_000);
+    let n = ctx.budget(40_000, 8_000_000);
     for i in 0..n {
         let u = units[(i % units.len() as u64) as usize];
         let v = if i % 3 == 0 { (r.below(4000) as f64) / 16.0 } else { r.log_uniform(1e-3, 1e4) };
@@ -360,7 +360,7 @@ fn layered_limits(ctx: &mut Ctx) {
     // (symbol, max_den, max_whole, accuracy) the layers give each probed unit
     let limits: [(&str, u8, u32, f32); 6] = [("c", 2, 3, 0.2), ("lb", 4, 50, 0.01), ("g", 16, 2, 0.2), ("oz", 8, 50, 0.2), ("ml", 16, 100, 0.2), ("tsp", 8, 50, 0.2)];
     let mut r = crate::core::Rng::new(ctx.seed ^ 0x1a7e);
-    let n = ctx.budget(6_000, 600_000);
+    let n = ctx.budget(6_000, 2_400_000);
     for i in 0..n {
         let (sym, md, mw, acc) = limits[(i % 6) as usize];
         let v = match i % 3 {
@@ -410,7 +410,7 @@ fn layered_limits_2(ctx: &mut Ctx) {
     let limits: [(&str, u8, u32, f32); 9] = [("sp", 2, 3, 0.01), ("tsp", 1, 5, 0.05), ("tbsp", 1, u32::MAX, 0.05), ("l", 2, u32::MAX, 0.05), ("c", 8, u32::MAX, 0.05), ("gl", 2, 3, 0.01), ("lb", 2, 7, 0.05), ("oz", 4, u32::MAX, 0.05), ("g", 4, u32::MAX, 0.05)];
     let lim = |sym: &str| limits.iter().find(|l| l.0 == sym).copied();
     let mut r = crate::core::Rng::new(ctx.seed ^ 0x2a7e);
-    let n = ctx.budget(6_000, 600_000);
+    let n = ctx.budget(6_000, 2_400_000);
     for i in 0..n {
         let (sym, ..) = limits[(i % 9) as usize];
         let v = match (i / 9) % 3 {
